@@ -298,6 +298,30 @@ theorem close_same_forever (cfg : Cfg) (wf : WF cfg) (evs more : List Ev) (x n :
   rw [hpx.2] at ht2
   exact Nat.le_trans ht2 ht3
 
+/-- **C09, what becomes of the handed-out tasks is none of close()'s business.**  Whether the
+    caller lets them complete, leaves them pending or cancels them (`Ev.tasksCancelled`, anywhere in
+    the history): the state is untouched, so every later close() returns the same set with the same
+    tasks plus only those of protocols it closes late (`close_again`, `close_same_forever` quantify
+    over histories containing the event) — never a replacement for a task already handed out. -/
+theorem tasksCancelled_changes_nothing (cfg : Cfg) (s : St) :
+    step cfg s .tasksCancelled = (s, .none) := rfl
+
+theorem close_same_after_cancel (cfg : Cfg) (wf : WF cfg) (evs more : List Ev) (x n : Nat)
+    (h : (step cfg (after cfg evs) .userClose).2 = .set x n) :
+    ∃ n', n ≤ n' ∧
+      ((step cfg (after cfg (evs ++ .userClose :: (.tasksCancelled :: more))) .userClose).2 = .set x n' ∨
+        (step cfg (after cfg (evs ++ .userClose :: (.tasksCancelled :: more))) .userClose).2 = .userRaised) :=
+  close_same_forever cfg wf evs (.tasksCancelled :: more) x n h
+
+/-- immediately after a close() that returned: cancel the tasks, close() again — exactly the same
+    set and the same number of tasks -/
+theorem close_cancel_close (cfg : Cfg) (wf : WF cfg) (evs : List Ev) (x n : Nat)
+    (h : (step cfg (after cfg evs) .userClose).2 = .set x n) :
+    (step cfg (step cfg (step cfg (after cfg evs) .userClose).1 .tasksCancelled).1 .userClose).2
+      = .set x n := by
+  have := close_idem cfg wf evs x n h
+  rw [tasksCancelled_changes_nothing, this]
+
 /-- **C09, close raises nothing of its own** — neither InvalidStateError from `shield.block`,
     nor BlockedStateError from its own `self.push_updater.stop()`, nor unbounded re-entrancy
     (the model's fuel never runs out).  The only exception that can come out of close() is the
